@@ -1,3 +1,3 @@
 SPECIFICATION Spec
-INVARIANTS InvBijection InvRead InvWriteRead InvFrame InvFill InvCtorPrefix InvCtorDone InvMatOverlap InvMatIdentity InvMatRoundTrip InvMatCompose InvMatDiag InvMatColumns Emit
+INVARIANTS InvBijection InvRead InvWriteRead InvFrame InvFill InvCtorPrefix InvCtorDone InvMatOverlap InvMatIdentity InvMatRoundTrip InvMatCompose InvMatDiag InvMatColumns InvQua Emit
 CHECK_DEADLOCK FALSE
